@@ -11,58 +11,68 @@
    operation list follows the decReaderI protocol (Model.pre_ok), [abides] that the
    script has fewer than maxConsecutiveEmptyReads zero-length reads in a row. *)
 From Coq Require Import List NArith ZArith Arith Lia Bool.
-From Verif Require Import Gen.Consts C03.Model C03.Proofs.
+From Verif Require Import Gen.Consts C03.Model C03.Proofs C03.ProofsB.
 Import ListNotations.
 
-(* Refinement, unbuffered mode (ReaderBufferSize <= 0), every operation family
+(* Refinement: every configuration (any ReaderBufferSize: unbuffered and buffered,
+   any MaxInitLen, with and without ReadByte), every data, every contract-abiding
+   script (one byte at a time, arbitrary chunks, zero-length reads, data together
+   with EOF), every protocol-respecting operation list over every operation family
    (readn1/readnK/readx/readxb, readb, skip, skipWhitespace, jsonReadNum,
-   jsonReadAsisChars, jsonReadUntilDblQuote, start/stopRecording), every data,
-   every contract-abiding script, every MaxInitLen, with and without ReadByte:
-   same outputs, same tokens, same numread, same success/failure.
-   PARTIAL: the same statement for bufsize > 0 (fillbuf and the BUFIO loops) is
-   not proved; it is checked by correspondence and by the Example below only. *)
-Theorem C03_refines_partial : forall (c : cfg) (d : list N) (sc : list resp) (ops : list rop),
-  bufsize c = 0 -> abides sc -> respects false (sinit d) ops = true ->
+   jsonReadAsisChars, jsonReadUntilDblQuote, start/stopRecording): the same outputs,
+   tokens, numread after every operation and the same success/failure as the
+   specification reader over the delivered bytes. *)
+Theorem C03_refines : forall (c : cfg) (d : list N) (sc : list resp) (ops : list rop),
+  abides sc -> respects (bufio c) (sinit d) ops = true ->
   map erase (run_io c (init c d sc KEof) ops) = run_spec (sinit d) ops.
-Proof. intros c d sc ops H. apply unbuf_refines. unfold bufio. rewrite H. reflexivity. Qed.
-Print Assumptions C03_refines_partial.
+Proof. exact all_refines. Qed.
+Print Assumptions C03_refines.
 
-(* Whatever the script (abiding or not) and however the reader ends (EOF or error),
-   the reader-fed run follows the specification run on the bytes delivered until it
-   stops with an error; in particular if those bytes are not enough for the
-   operations (the value is incomplete) the run reports an error, never success.
-   PARTIAL: unbuffered mode only. *)
-Theorem C03_truncated_partial : forall (c : cfg) (d : list N) (sc : list resp) (f : ek) (ops : list rop),
-  bufsize c = 0 -> f = KEof \/ f = KHard -> respects false (sinit d) ops = true ->
+(* A reader that delivers d (under the contract) and then ends -- with io.EOF or
+   with an error -- before the operations have what they need makes the run report
+   an error, never success: wherever the specification run over the delivered
+   bytes fails, so does the reader-fed run. *)
+Theorem C03_truncated : forall (c : cfg) (d : list N) (sc : list resp) (f : ek) (ops : list rop),
+  f = KEof \/ f = KHard -> abides sc -> respects (bufio c) (sinit d) ops = true ->
   In TErr (run_spec (sinit d) ops) ->
   exists k, In (EErr k) (run_io c (init c d sc f) ops).
 Proof.
-  intros c d sc f ops H Hf Hr Hin.
-  destruct (agree_truncated _ _ (unbuf_agree c d sc f ops ltac:(unfold bufio; rewrite H; reflexivity) Hf Hr) Hin) as [k [A _]].
+  intros c d sc f ops Hf Hab Hr Hin.
+  destruct (agree_truncated _ _ (all_agree c d sc f ops Hf Hab Hr) Hin) as [k [A _]].
   exists k. exact A.
 Qed.
-Print Assumptions C03_truncated_partial.
+Print Assumptions C03_truncated.
+
+(* Unbuffered, the same holds for every script whatsoever (also one that breaks the
+   zero-length-read limit): the run follows the specification run until it stops
+   with an error. (Buffered, a script with 16 or more consecutive (0,nil) reads makes
+   jsonReadNum end a number early before io.ErrNoProgress surfaces: outside the contract.) *)
+Theorem C03_truncated_unbuffered_any_script : forall (c : cfg) (d : list N) (sc : list resp) (f : ek) (ops : list rop),
+  bufsize c = 0 -> f = KEof \/ f = KHard -> respects false (sinit d) ops = true ->
+  agree (run_io c (init c d sc f) ops) (run_spec (sinit d) ops).
+Proof. intros c d sc f ops H. apply unbuf_agree. unfold bufio. rewrite H. reflexivity. Qed.
+Print Assumptions C03_truncated_unbuffered_any_script.
 
 (* Without internal buffering the reader is never asked for more bytes than the
-   operations consumed: after every successful operation, bytes drawn = numread.
-   (Full: the statement is about bufsize = 0 only.) *)
+   operations consumed: after every successful operation, bytes drawn = numread
+   (every script, every terminal error). *)
 Theorem C03_no_overread : forall (c : cfg) (d : list N) (sc : list resp) (f : ek) (ops : list rop),
   bufsize c = 0 -> f = KEof \/ f = KHard -> respects false (sinit d) ops = true ->
   Forall no_overread_ev (run_io c (init c d sc f) ops).
 Proof. intros c d sc f ops H. apply unbuf_no_overread. unfold bufio. rewrite H. reflexivity. Qed.
 Print Assumptions C03_no_overread.
 
-(* The model's internal failure classes (out of fuel, unmodelled operation) are
-   never returned. PARTIAL: unbuffered mode only. *)
-Theorem C03_total_partial : forall (c : cfg) (d : list N) (sc : list resp) (f : ek) (ops : list rop) (k : ek),
-  bufsize c = 0 -> f = KEof \/ f = KHard -> respects false (sinit d) ops = true ->
-  In (EErr k) (run_io c (init c d sc f) ops) -> k <> KFuel /\ k <> KUnmodelled.
+(* The model's internal failure classes (out of fuel, unmodelled operation, a nil
+   error reported as an error) are never returned. *)
+Theorem C03_total : forall (c : cfg) (d : list N) (sc : list resp) (f : ek) (ops : list rop) (k : ek),
+  f = KEof \/ f = KHard -> abides sc -> respects (bufio c) (sinit d) ops = true ->
+  In (EErr k) (run_io c (init c d sc f) ops) -> k <> KFuel /\ k <> KUnmodelled /\ k <> KNone.
 Proof.
-  intros c d sc f ops k H Hf Hr Hin.
-  pose proof (agree_total _ _ (unbuf_agree c d sc f ops ltac:(unfold bufio; rewrite H; reflexivity) Hf Hr) k Hin) as B.
-  unfold bad in B. split; intros E; apply B; auto.
+  intros c d sc f ops k Hf Hab Hr Hin.
+  pose proof (agree_total _ _ (all_agree c d sc f ops Hf Hab Hr) k Hin) as B.
+  unfold bad in B. repeat apply conj; intros E; apply B; auto.
 Qed.
-Print Assumptions C03_total_partial.
+Print Assumptions C03_total.
 
 (* non-vacuity: one byte at a time with zero-length reads in between, through 1-,
    3- and 64-byte buffers and unbuffered, with and without ReadByte: the premises
